@@ -18,7 +18,7 @@ import Model.Template
 import Proofs.JsonLexical
 import Proofs.JsonAccept
 import Proofs.JsonPrint
-import Proofs.CastTyped
+import Model.CastGen
 import Proofs.Order
 
 namespace Jl.RoundTrip
@@ -1136,6 +1136,11 @@ theorem read_line : Json.unmarshal line = (tree, true) := by
 
 theorem not_unique : ¬ UniqueKeys tree := by decide
 
+/-- `cast.To(nil, v) = v` over the regenerated dispatch table (only its row for a nil target is
+    looked at, so that this file does not depend on the whole-table check of `Proofs.CastTyped`). -/
+theorem gen_castTo_none (ext : Ext) (v : Dyn) : Cast.castTo genTables ext .none v = .ok v := by
+  simp [Cast.castTo, genTables, Gen.dispatchTo, Cast.evalBranch, Cast.evalE]
+
 /-- A repeated name is imported into the cell of its first occurrence (with the generated cast
     tables: `cast.To(nil, v) = v`): one member, holding the last value; the written line is
     `{"a":2}`, not the input's tree. -/
@@ -1143,7 +1148,7 @@ theorem dup_imports_first (ext : Ext) :
     getRow ⟨genTables, ext⟩ [] line = .ok ([([0x61], .cell (.num [0x32]) .auto .none)], none) := by
   simp [getRow, createRowEmpty, cloneRow, cloneInto, unmarshalInto, read_line, tree, ofJVMembers, ofJV,
     parseMembers, parseMember, importVal, importInto, importCell, importByFormat, lookup, upsert,
-    OMap.lookup, OMap.upsert, Cells.autoCell, CastTyped.gen_castTo_none]
+    OMap.lookup, OMap.upsert, Cells.autoCell, gen_castTo_none]
 
 end Dup
 
